@@ -1188,6 +1188,15 @@ func buildEvidence(prop, tier string, seed int64, d *Describe, results []RunResu
 		"technique":           "deterministic simulation with fault injection (seeded search over schedules and fault sequences)",
 	}
 	assumptions := append([]string{"go-ethereum secp256k1, Go 1.26.8 testing/synctest and the harness reference models are trusted", "a clean batch is evidence, not proof: the space of histories, schedules and faults is sampled"}, d.Assumptions...)
+	if prop == "C02" {
+		blocks := 0
+		for k := range probes {
+			if strings.HasPrefix(k, "c02.block.") {
+				blocks++
+			}
+		}
+		cov["exhaustive_subspace"] = fmt.Sprintf("all report sequences up to length 4 over 2 devices x 2 slots x 3 values (22620 sequences in 76 blocks of 300): %d of 76 blocks completed in this run", blocks)
+	}
 	if n, ok := probes["c05.forks"]; ok {
 		cov["crash_points"] = n
 		cov["crash_points_recovered"] = probes["c05.recovered"]
